@@ -505,6 +505,9 @@ impl Vm {
   pub(super) unsafe fn op_push_handler(&mut self) -> ExecutionSignal { unsafe {
     let slot_depth = self.read_short() as usize;
     let jump = self.read_short() as usize;
+
+    #[cfg(feature = "verif")]
+    self.verif_push_handler(slot_depth);
     let start = &self.fiber.fun().chunk().instructions()[0] as *const u8;
     let offset = self.ip.offset_from(start) as usize + jump;
     let mut fiber = self.fiber;
